@@ -50,7 +50,7 @@ def make_judge():
 def run(rep, tier, seed, budget):
     ctx = Ctx.get()
     quick = tier == "quick"
-    total = budget or (85 if quick else 1500)
+    total = budget or (110 if quick else 1500)
     t_end = time.time() + total
     jf = make_judge()
     K = KINDQ if quick else KIND
@@ -138,17 +138,21 @@ def run(rep, tier, seed, budget):
     # the same through the public API: every aromatic skeleton a SMILES can spell with n atoms 'c' - the solver chooses the
     # spanning tree in writing order (the parent of atom i is atom i-1 or one of its ancestors), then which other pairs are
     # ring bonds (degree <= 3) - is written out and sent through the real encoder and decoder; O-KEK decides what must happen
-    def struct_input(n):
-        return lambda: skel.skeleton(n, atoms=("c",), max_deg=3)
+    def struct_input(n, rb=("",), sides=("open",)):
+        return lambda: skel.skeleton(n, atoms=("c",), max_deg=3, ring_bonds=rb, ring_bond_sides=sides)
 
-    for n in ((4, 6) if quick else (4, 6, 7, 8)):
+    SIDES = ("open", "close", "both")
+    SKP = [(4, ("",), ("open",)), (6, ("",), ("open",)), (5, ("", "="), ("open", "close"))] if quick else \
+          [(4, ("",), ("open",)), (6, ("",), ("open",)), (5, ("", "-", "="), SIDES), (6, ("", "-"), SIDES), (7, ("",), ("open",)), (8, ("",), ("open",))]
+    for n, rb, sides in SKP:
         left = t_end - time.time()
-        name = "every aromatic skeleton of %d atoms 'c' a SMILES can spell (spanning tree and ring bonds chosen by the solver), through encoder and decoder" % n
-        bounds = {"atoms": n, "max_degree": 3, "spanning_tree": "every writing order", "ring_bonds": "every subset of the remaining pairs"}
+        name = "every aromatic skeleton of %d atoms 'c' a SMILES can spell (spanning tree and ring bonds chosen by the solver%s), through encoder and decoder" % (
+            n, "" if rb == ("",) else "; ring bonds implicit or written %s on the opening label, the closing label or both" % "/".join(x for x in rb if x))
+        bounds = skel.bounds(n, ("c",), ("",), rb, 3, sides)
         if left < 4:
             rep.parts.append({"name": name, "complete": False, "paths": 0, "bounds": bounds, "claim": "not started (time budget)"})
             continue
-        rt.explore(rep, ctx, name, struct_input(n), jf, bounds, left * (0.3 if quick else 0.4), table_mode="relaxed", kind="kekulize", strict=True)
+        rt.explore(rep, ctx, name, struct_input(n, rb, sides), jf, bounds, left * (0.3 if quick else 0.4), table_mode="relaxed", kind="kekulize", strict=True)
 
     for NMATCH in ((4, 6) if quick else (4, 6, 8)):
         left = t_end - time.time()
